@@ -11,6 +11,8 @@ Driver for the C18 model (exe `drv_pager`).
   pager.select <config> <DELTA_PAGER> <BAT_PAGER> <PAGER> <self> <lessversion|-> <quit_if_one_screen 0|1>
       each command: `-` (unset) or x<hex of the shell-split words joined by \n>
       -> ok <source> <stdout|refused|less|other> <x path> <x argv joined by \n> <x bat result | ->
+  pager.navsetup <navigate 0|1> <show_themes 0|1> <none|empty|nonempty>
+      -> ok <navigate_regex: none|some-empty|given|default> <LESSHISTFILE set 0|1> <x extra args>  |  PANIC <field> ..
 -/
 
 def optCmd (f : String) : Option (Option Cmd) :=
@@ -92,6 +94,20 @@ def stepPager (line : String) : String :=
       | .other path argv => s!"ok {src} other {hexOfString path} {hexOfString ("\n".intercalate argv)} {batS}"
       | .unknown => "PANIC model-shape-unknown"
     | _, _, _, _, _ => "ERR"
+  | ["pager.navsetup", nav, st, rc] =>
+    let r : Option RegexOpt := match rc with
+      | "none" => some .unset | "empty" => some .empty | "nonempty" => some .nonempty | _ => none
+    match r with
+    | none => "ERR"
+    | some r =>
+      let o : NavOpt := ⟨nav = "1", st = "1", r⟩
+      let v := match configNavigateRegex o with
+        | some .none => "none" | some .someEmpty => "some-empty" | some .given => "given"
+        | some .default => "default" | none => "unknown"
+      match lessSetup o with
+      | .ok h extra => s!"ok {v} {if h then 1 else 0} {hexOfString ("\n".intercalate extra)}"
+      | .panic f => s!"PANIC {f} {v}"
+      | .unknown => "PANIC model-shape-unknown"
   | _ => "ERR"
 
 def main : IO Unit := serve stepPager
